@@ -160,7 +160,23 @@ pub fn run(rep: &mut Report) {
         let r = &mut r;
         match scenario {
             0 => {
-                let s = garbage(r);
+                let s = if r.bool() {
+                    garbage(r)
+                } else {
+                    // a well-formed string with a few characters swapped for hostile ones (digits of other scripts,
+                    // fractions, Roman numerals, NUL, combining marks, multi-byte letters)
+                    const HOSTILE: &[char] = &['\u{0663}', '\u{0967}', '\u{ff11}', '\u{00b2}', '\u{00bd}', '\u{2167}', '\u{1d7d9}', '\u{0}', '\u{0301}', '\u{00e9}', '\u{2212}', '\u{ff0b}', '\u{ff1a}', ' ', '9', 'Z', '[', ']'];
+                    let base = if r.chance(1, 4) { crate::mon::c12::gen_duration_text(r) } else { crate::mon::c12::gen_valid(r) };
+                    let mut cs: Vec<char> = base.chars().collect();
+                    for _ in 0..r.range(1, 3) {
+                        if cs.is_empty() {
+                            break;
+                        }
+                        let i = r.below(cs.len() as u64) as usize;
+                        cs[i] = *r.pick(HOSTILE);
+                    }
+                    cs.into_iter().collect()
+                };
                 let _ = call(|| PlainDate::from_str(&s));
                 let _ = call(|| PlainTime::from_str(&s));
                 let _ = call(|| PlainDateTime::from_str(&s));
